@@ -44,7 +44,7 @@ Fixpoint skip_wc (cm : bool) (s : str) : str :=
   | c :: r =>
       if cm then (if c =? 10 then skip_wc false r else skip_wc true r)
       else if is_ws c then skip_wc false r
-      else if (c =? 45) && (match r with 45 :: _ => true | _ => false end) then skip_wc true r
+      else if (c =? 45) && (match r with c2 :: _ => c2 =? 45 | [] => false end) then skip_wc true r
       else s
   end.
 
@@ -84,7 +84,10 @@ Fixpoint num_body (has_dot : bool) (s : str) : str * str :=
 
 (** [tokenize_number]: [None] = "Invalid scientific notation" *)
 Definition scan_number (s : str) : option (str * str) :=
-  let '(lead, s1, dot0) := match s with 46 :: r => ([46], r, true) | _ => ([], s, false) end in
+  let '(lead, s1, dot0) := match s with
+                           | c :: r => if c =? 46 then ([46], r, true) else ([], s, false)
+                           | [] => ([], s, false)
+                           end in
   let '(body, s2) := num_body dot0 s1 in
   match s2 with
   | e :: r =>
